@@ -37,6 +37,7 @@ type Profile struct {
 	DeadProbe  bool // C08: present dead handles to every procedure/position
 	ZeroScan   bool
 	HotSet     int  // pick objects mostly from the n oldest of their kind (so that operations pile up on few objects)
+	Own        []string // violation classes of the property being checked: only these (and a diverged reference) end a run
 	DeleteAll  bool // C05: delete everything at the end; only the root may remain
 }
 
@@ -85,6 +86,8 @@ type Sess struct {
 	step  int
 	names []string
 	inumSeen map[uint64]int
+	stop  bool
+	steerFollow []byte // file whose last WRITE failed for lack of space
 }
 
 var namePool = []string{"a", "b", "c", "f1", "f2", "g", "d0", "d1", "d2", "lnk", "x y", "ü"}
@@ -94,6 +97,14 @@ func longName(n int, c byte) string { return strings.Repeat(string(c), n) }
 func (s *Sess) viol(class, f string, a ...interface{}) {
 	if len(s.res.Viol) < 20 {
 		s.res.Viol = append(s.res.Viol, Violation{Class: class, Msg: fmt.Sprintf(f, a...), Op: s.step})
+	}
+	switch class {
+	case "reply", "dump", "content", "handle", "afterfail", "twin":
+		s.stop = true // the reference no longer describes the server
+	default:
+		if len(s.p.Own) == 0 || inClasses(s.p.Own, class) {
+			s.stop = true
+		}
 	}
 }
 
@@ -553,6 +564,9 @@ func (s *Sess) exec(op *Op) *Res {
 			}
 		}
 	}
+	if op.K == OpWrite && res.Stat == stNOSPC {
+		s.steerFollow = op.H
+	}
 	if o := s.m.Obj(op.H); o != nil && o.Kind == KReg && o.Size > s.res.MaxFile {
 		s.res.MaxFile = o.Size
 	}
@@ -746,9 +760,9 @@ func runSeq(p Profile, seed uint64, cas int) *SeqRes {
 	if p.NearFull {
 		s.fillDisk()
 	}
-	for i := 0; i < p.NOps && len(res.Viol) == 0; i++ {
+	for i := 0; i < p.NOps && !s.stop; i++ {
 		var op *Op
-		if p.NearFull && (p.AfterFail || p.TwinEvery > 0) && rng.Intn(5) < 2 {
+		if p.NearFull && (p.AfterFail || p.TwinEvery > 0 || p.FsckEvery == 1) && rng.Intn(5) < 2 {
 			op = s.genSteer()
 		} else if p.Recycle && rng.Intn(3) == 0 {
 			op = s.genRecycle()
@@ -774,12 +788,12 @@ func runSeq(p Profile, seed uint64, cas int) *SeqRes {
 			s.walkCompare("dump", fmt.Sprintf("after restart following op %d", s.step))
 		}
 	}
-	if len(res.Viol) == 0 {
+	if !s.stop {
 		if p.Sweep {
 			s.freeSpaceSweep()
 		}
 		s.fullCheck("dump", "at the end")
-		if p.DeleteAll && len(res.Viol) == 0 {
+		if p.DeleteAll && !s.stop {
 			s.deleteAll()
 		}
 		if p.TwinEvery > 0 {
@@ -1081,6 +1095,15 @@ func (s *Sess) firstByteDiff(got, want []DumpEnt) string {
 // requests at the paths that fail after having started to modify state.
 func (s *Sess) genSteer() *Op {
 	r := s.rng
+	if f := s.steerFollow; f != nil {
+		// after a WRITE that failed for lack of space: make the server write
+		// that inode again (whatever the failed request left in the cached
+		// inode becomes durable now)
+		s.steerFollow = nil
+		if s.m.Obj(f) != nil {
+			return &Op{K: OpSetattr, H: f, SetMtime: 2, Mtime: [2]uint32{uint32(r.U64()), 7}}
+		}
+	}
 	s.srv.WaitIdle()
 	free := s.srv.N.VerifFsState().Balloc.NumFree()
 	filler := s.m.lookupIn(s.m.Objs[s.m.Root], "filler")
